@@ -372,3 +372,35 @@ def conv_field(*values):
     t = conv_table()
     ent = [f"{a}>{b}:{t[(a, b)]}" for a in sorted(us) for b in sorted(us) if a != b and (a, b) in t]
     return ";".join(ent) or "-"
+
+
+VALUE_FLAGS = {"numEqAsymmetric", "convCmpOneWay", "mapEqOrdered", "mapEqOneSided", "argListNeverEqual"}
+
+
+def live_value_flags(pid):
+    """Deviation flags of the shared value model (`Val.ValQuirks`) that belong to open findings of
+    OTHER properties: a flag is live iff that finding's witness (a veq/seq line) still fails the
+    C12 statement on the harness that was just built.  (A property's own findings are replayed by
+    tools/vlib.py; this covers e.g. C13/C14 programs whose as-is model must follow C12's findings.)"""
+    import json, os
+    from tools.vlib import VERIF, run_impl
+    from props import C12
+    try:
+        kf = json.load(open(os.path.join(VERIF, "known_findings.json")))["findings"]
+    except OSError:
+        return []
+    cand = [f for f in kf if f.get("status") == "open" and f.get("property") != pid
+            and set(f.get("flags", [])) & VALUE_FLAGS and f.get("witness", "").split("\t")[0] in ("veq", "seq")]
+    if not cand:
+        return []
+    out = run_impl([f["witness"] for f in cand])
+    live = set()
+    for f, r in zip(cand, out):
+        fields = f["witness"].split("\t")
+        why = C12.oracle(fields, r)
+        if why is None and f.get("property") == "C13":
+            from props import C13
+            why = C13.judge(type("W", (), {"lines": [f["witness"]], "note": {}})(), r, None, None).fails
+        if why is not None:
+            live |= set(f["flags"]) & VALUE_FLAGS
+    return sorted(live)
